@@ -50,3 +50,28 @@ def static_checks(repo):
                "print(repr(a), repr(b), '->', P._str(a), P._str(b)); sys.exit(1 if P._str(a) == P._str(b) else 0)" % witness)
     return [dict(name=name, ok=not problems, clause="the escape table is a prefix code with the backslash escaped",
                  detail="table re-read from source: %r; problems: %r" % (table, problems), native_cmd=cmd)]
+
+
+def bounded(check):
+    """bounded stand-in / native witness search for injectivity of the complete serializer"""
+    import json, os, subprocess
+    lvl = 1 if check.tier == "quick" else 2
+    here = os.path.dirname(os.path.dirname(os.path.abspath(__file__)))
+    p = subprocess.run(["/venv/bin/python", os.path.join(here, "bounded", "serializer_injective.py"), check.repo.root, str(lvl)],
+                       stdout=subprocess.PIPE, stderr=subprocess.PIPE, universal_newlines=True, timeout=3000)
+    line = (p.stdout.strip().splitlines() or ["{}"])[-1]
+    try:
+        info = json.loads(line)
+    except ValueError:
+        info = {"error": (p.stderr or p.stdout)[-400:]}
+    out = dict(name="different playbook values serialize to different texts", level="bounded",
+               bound="level %d: 22-27 adversarial strings, 3 integers, lists (<= 2 elements) and mappings (1-2 entries) of them, nested examples" % lvl,
+               result=info, violation=(p.returncode == 1), error=(p.returncode not in (0, 1)))
+    if p.returncode == 1:
+        os.makedirs(os.path.join(here, "replays"), exist_ok=True)
+        path = os.path.join(here, "replays", "C18-bounded.json")
+        json.dump(dict(obligation="bounded:serializer-injective", witness=info,
+                       replay_cmd="/venv/bin/python %s %s %d" % (os.path.join(here, "bounded", "serializer_injective.py"), check.repo.root, lvl)),
+                  open(path, "w"), indent=1)
+        out["replay"] = path
+    return [out]
